@@ -58,6 +58,7 @@ type rewriter struct {
 
 func main() {
 	src := flag.String("src", "/repo", "package directory")
+	as := flag.String("as", "", "directory whose files the overlay replaces (default: -src); lets a scratch copy of the package stand in for the module's directory")
 	out := flag.String("out", "", "output directory")
 	tags := flag.String("tags", "verif", "build tags (comma separated)")
 	consts := flag.String("const", "", "NAME=VALUE[,NAME=VALUE]: replace the literal value of package-level integer constants (abstraction knob, e.g. shards=4)")
@@ -163,8 +164,32 @@ func main() {
 			fail("%v", err)
 		}
 
-		abs, _ := filepath.Abs(filepath.Join(*src, n))
+		base := *src
+		if *as != "" {
+			base = *as
+		}
+
+		abs, _ := filepath.Abs(filepath.Join(base, n))
 		overlay[abs] = dst
+	}
+
+	// non-test Go files that exist only in the directory being stood in for are removed from the build
+	if *as != "" && *as != *src {
+		have := map[string]bool{}
+		for _, n := range names {
+			have[n] = true
+		}
+
+		old, _ := os.ReadDir(*as)
+		for _, e := range old {
+			n := e.Name()
+			if e.IsDir() || !strings.HasSuffix(n, ".go") || strings.HasSuffix(n, "_test.go") || have[n] {
+				continue
+			}
+
+			abs, _ := filepath.Abs(filepath.Join(*as, n))
+			overlay[abs] = ""
+		}
 	}
 
 	js, _ := json.MarshalIndent(map[string]interface{}{"Replace": overlay}, "", " ")
